@@ -177,7 +177,7 @@ def toolkit_shaped(chain, root, anchors, role, depth, now, enc=None):
     return len(chain) - 1 <= depth
 
 
-DEFECTS = ['validity-expired', 'validity-notyet', 'validity-edge-after', 'validity-edge-at', 'validity-edge-before', 'bc-absent', 'bc-cafalse',
+DEFECTS = ['validity-expired', 'validity-notyet', 'validity-notyet-by-a-multiple-of-2^32-seconds', 'validity-notyet-by-2^31-seconds', 'validity-edge-after', 'validity-edge-at', 'validity-edge-before', 'bc-absent', 'bc-cafalse',
            'bc-pathlen-low', 'bc-pathlen-high', 'bc-pathlen-absent', 'ku-absent', 'ku-digsig-only', 'ku-both', 'ku-keyenc',
            'ku-noncritical', 'eku-server', 'eku-client', 'eku-any', 'eku-critical-server', 'sig-corrupt', 'sig-foreign', 'issuer-mismatch',
            'unknown-ext', 'unknown-critical-ext', 'unknown-critical-ext-alias', 'version-v1', 'leaf-is-ca', 'ku-certsign-on-leaf']
@@ -188,6 +188,14 @@ def mutate(rec, d, pos, n_inter, rng):
         rec['nb'], rec['na'] = NOW - 400 * DAY, NOW - DAY
     elif d == 'validity-notyet':
         rec['nb'], rec['na'] = NOW + DAY, NOW + 400 * DAY
+    elif d == 'validity-notyet-by-a-multiple-of-2^32-seconds':
+        # not yet valid by k * 2^32 seconds minus a few days (136, 272, 408 years ahead): a comparison done in 32 bits wraps
+        k = rng.choice([1, 2, 3])
+        rec['nb'] = NOW + (k << 32) - rng.randint(1, 200) * DAY
+        rec['na'] = rec['nb'] + 300 * DAY
+    elif d == 'validity-notyet-by-2^31-seconds':
+        rec['nb'] = NOW + (1 << 31) + rng.choice([-DAY, 0, DAY])
+        rec['na'] = rec['nb'] + 300 * DAY
     elif d == 'validity-edge-after':
         rec['na'] = NOW - 1
     elif d == 'validity-edge-at':
